@@ -3,11 +3,10 @@
 use crate::j::J;
 use vcommon::Rng;
 
-/// Scalars and small shapes substituted for a node.  Integer literals in [2^63, 2^64) are left out
-/// on purpose: at a DefaultValue position serde turns them into a float by arithmetic the model does
-/// not have (stated MODEL GAP in coq/serde/Model/Serde.v).
+/// Scalars and small shapes substituted for a node (integer literals in [2^63, 2^64) included: at a
+/// DefaultValue position serde turns them into Float(z as f64), which the model computes too).
 fn pool(rng: &mut Rng) -> J {
-    match rng.below(26) {
+    match rng.below(30) {
         0 => J::Null,
         1 => J::Bool(true),
         2 => J::Bool(false),
@@ -33,6 +32,10 @@ fn pool(rng: &mut Rng) -> J {
         22 => J::A(vec![J::S("a".into())]),
         23 => J::O(vec![("a".into(), J::U(1))]),
         24 => J::S("cascade".into()),
+        26 => J::U(9223372036854775808),
+        27 => J::U(u64::MAX),
+        28 => J::U(rng.next() | (1u64 << 63)),
+        29 => J::U(18446744073709550591),
         _ => J::A(vec![J::Bool(true)]),
     }
 }
